@@ -407,6 +407,94 @@ theorem popAll_ok (m : VMap) (e : Event) (h : popAll m = .ok e) (k : Var) (x : V
   · rintro ⟨rest, hp⟩
     exact ⟨(k, x :: rest), hp, rfl⟩
 
+/-! ### `dropNone` (the `None` that the merge of `Y_y` with `Y` leaves next to a proper value is dropped) -/
+
+theorem dropNone_mem (m : VMap) (p : Var × List Val) (hp : p ∈ dropNone m) :
+    ∃ q ∈ m, q.1 = p.1 ∧ (p.2 = q.2 ∨ p.2 = q.2.filter (fun x => decide (x ≠ none))) ∧
+      ¬ (p.2.length > 1 ∧ none ∈ p.2) := by
+  unfold dropNone at hp
+  obtain ⟨q, hq, rfl⟩ := List.mem_map.1 hp
+  refine ⟨q, hq, ?_⟩
+  split
+  · refine ⟨rfl, Or.inr rfl, ?_⟩
+    rintro ⟨_, hn⟩
+    simp at hn
+  · rename_i hc
+    refine ⟨rfl, Or.inl rfl, ?_⟩
+    rintro ⟨h1, h2⟩
+    apply hc
+    simp only [Bool.and_eq_true, decide_eq_true_eq]
+    exact ⟨h1, (mem'_iff _ _).2 h2⟩
+
+theorem dropNone_of_mem (m : VMap) (q : Var × List Val) (hq : q ∈ m) :
+    ∃ p ∈ dropNone m, p.1 = q.1 ∧ (p.2 = q.2 ∨ (p.2 = q.2.filter (fun x => decide (x ≠ none)) ∧ q.2.length > 1)) := by
+  unfold dropNone
+  by_cases hc : (q.2.length > 1 && mem' none q.2) = true
+  · refine ⟨(q.1, q.2.filter (fun x => decide (x ≠ none))), List.mem_map.2 ⟨q, hq, by simp only [hc, ↓reduceIte]⟩, rfl,
+      Or.inr ⟨rfl, ?_⟩⟩
+    simp only [Bool.and_eq_true, decide_eq_true_eq] at hc
+    exact hc.1
+  · exact ⟨q, List.mem_map.2 ⟨q, hq, by simp only [hc, Bool.false_eq_true, ↓reduceIte]⟩, rfl, Or.inl rfl⟩
+
+theorem dropNone_keys (m : VMap) : (dropNone m).map (·.1) = m.map (·.1) := by
+  unfold dropNone
+  rw [List.map_map]
+  apply List.map_congr_left
+  intro p _
+  simp only [Function.comp]
+  split <;> rfl
+
+theorem dropNone_key (m : VMap) (p : Var × List Val) (hp : p ∈ dropNone m) : ∃ q ∈ m, q.1 = p.1 := by
+  obtain ⟨q, hq, hk, _⟩ := dropNone_mem m p hp
+  exact ⟨q, hq, hk⟩
+
+theorem dropNone_has_some (m : VMap) (k : Var) (i : Iv) : (dropNone m).Has k (some i) ↔ m.Has k (some i) := by
+  constructor
+  · rintro ⟨vals, hp, hx⟩
+    obtain ⟨q, hq, hk, hv, _⟩ := dropNone_mem m (k, vals) hp
+    simp only at hk hv
+    refine ⟨q.2, by rw [← hk]; exact hq, ?_⟩
+    rcases hv with hv | hv
+    · rw [← hv]; exact hx
+    · rw [hv] at hx; exact (List.mem_filter.1 hx).1
+  · rintro ⟨vals, hq, hx⟩
+    obtain ⟨p, hp, hk, hv⟩ := dropNone_of_mem m (k, vals) hq
+    simp only at hk hv
+    refine ⟨p.2, by rw [← hk]; exact hp, ?_⟩
+    rcases hv with hv | ⟨hv, _⟩
+    · rw [hv]; exact hx
+    · rw [hv]; exact List.mem_filter.2 ⟨hx, by simp⟩
+
+theorem dropNone_has (m : VMap) (k : Var) (x : Val) (h : (dropNone m).Has k x) : m.Has k x := by
+  obtain ⟨vals, hp, hx⟩ := h
+  obtain ⟨q, hq, hk, hv, _⟩ := dropNone_mem m (k, vals) hp
+  simp only at hk hv
+  refine ⟨q.2, by rw [← hk]; exact hq, ?_⟩
+  rcases hv with hv | hv
+  · rw [← hv]; exact hx
+  · rw [hv] at hx; exact (List.mem_filter.1 hx).1
+
+theorem dropNone_nodup (m : VMap) (h : m.NodupVals) : (dropNone m).NodupVals := by
+  intro p hp
+  obtain ⟨q, hq, _, hv, _⟩ := dropNone_mem m p hp
+  rcases hv with hv | hv
+  · rw [hv]; exact h q hq
+  · rw [hv]; exact (h q hq).filter _
+
+/-- nothing to drop: no entry holds `None` next to another value -/
+theorem dropNone_id (m : VMap) (h : ∀ p ∈ m, ¬ (p.2.length > 1 ∧ none ∈ p.2)) : dropNone m = m := by
+  unfold dropNone
+  conv => rhs; rw [← List.map_id m]
+  apply List.map_congr_left
+  intro p hp
+  have hc : (p.2.length > 1 && mem' none p.2) = false := by
+    cases hb : (p.2.length > 1 && mem' none p.2) with
+    | false => rfl
+    | true =>
+      simp only [Bool.and_eq_true, decide_eq_true_eq] at hb
+      exact absurd ⟨hb.1, (mem'_iff _ _).1 hb.2⟩ (h p hp)
+  simp only [hc, Bool.false_eq_true, ↓reduceIte, id]
+
 /-! ### the combinatorial content of `simplifyCore` on events without self-intervened variables -/
 
 theorem two_of_length {α : Type} (l : List α) (hn : l.Nodup) (hl : l.length > 1) :
@@ -478,15 +566,17 @@ theorem simplifyCore_spec (me : Event) (h : ∀ p ∈ me, selfIntervened p.1 = f
     obtain ⟨q, hq, hk⟩ := removeRepeated_key _ p hp
     rw [← hk]; exact ((hsplit₁ q).1 hq).2
   have hred := reduceReflexive_plain _ hreflkeys
-  have hredkeys : ∀ p ∈ reducePlain (removeRepeated (splitReflexive me).1) [], p.1.isCf = false := by
+  have hredkeys : ∀ p ∈ dropNone (reducePlain (removeRepeated (splitReflexive me).1) []), p.1.isCf = false := by
     intro p hp
-    rcases reducePlain_key _ _ p hp with ⟨q, hq, _⟩ | ⟨q, hq, hk⟩
+    obtain ⟨p', hp', hk'⟩ := dropNone_key _ p hp
+    rw [← hk']
+    rcases reducePlain_key _ _ p' hp' with ⟨q, hq, _⟩ | ⟨q, hq, hk⟩
     · cases hq
     · rw [← hk]; exact hreflkeys q hq
-  have hredhas : ∀ k x, (reducePlain (removeRepeated (splitReflexive me).1) []).Has k x ↔
-      (removeRepeated (splitReflexive me).1).Has k x := by
-    intro k x
-    rw [reducePlain_has]
+  have hredhas : ∀ k i, (dropNone (reducePlain (removeRepeated (splitReflexive me).1) [])).Has k (some i) ↔
+      (removeRepeated (splitReflexive me).1).Has k (some i) := by
+    intro k i
+    rw [dropNone_has_some, reducePlain_has]
     constructor
     · rintro (h | h)
       · exact absurd h (VMap.has_nil _ _)
@@ -494,8 +584,8 @@ theorem simplifyCore_spec (me : Event) (h : ∀ p ∈ me, selfIntervened p.1 = f
     · exact Or.inr
   have hnodn := removeRepeated_nodup (splitReflexive me).2
   have hnodr := removeRepeated_nodup (splitReflexive me).1
-  have hnodr' : (reducePlain (removeRepeated (splitReflexive me).1) []).NodupVals :=
-    reducePlain_nodup _ _ (by intro p hp; cases hp)
+  have hnodr' : (dropNone (reducePlain (removeRepeated (splitReflexive me).1) [])).NodupVals :=
+    dropNone_nodup _ (reducePlain_nodup _ _ (by intro p hp; cases hp))
   have inMe₂ : ∀ k x, (removeRepeated (splitReflexive me).2).Has k x → (k, x) ∈ me :=
     fun k x hh => ((hsplit₂ _).1 (removeRepeated_has _ k x hh)).1
   have inMe₁ : ∀ k x, (removeRepeated (splitReflexive me).1).Has k x → (k, x) ∈ me :=
@@ -516,7 +606,7 @@ theorem simplifyCore_spec (me : Event) (h : ∀ p ∈ me, selfIntervened p.1 = f
     | false =>
       simp only [Bool.false_eq_true, ↓reduceIte]
       cases h2 : anyInconsistent (removeRepeated (splitReflexive me).2)
-          (reducePlain (removeRepeated (splitReflexive me).1) []) with
+          (dropNone (reducePlain (removeRepeated (splitReflexive me).1) [])) with
       | error e => simp
       | ok b2 =>
         cases b2 with
@@ -533,7 +623,7 @@ theorem simplifyCore_spec (me : Event) (h : ∀ p ∈ me, selfIntervened p.1 = f
           cases ha : popAll (removeRepeated (splitReflexive me).2) with
           | error e => simp
           | ok a =>
-            cases hb : popAll (reducePlain (removeRepeated (splitReflexive me).1) []) with
+            cases hb : popAll (dropNone (reducePlain (removeRepeated (splitReflexive me).1) [])) with
             | error e => simp
             | ok b =>
               simp only [pure, Except.pure, Except.ok.injEq, reduceCtorEq, false_implies, Option.some.injEq,
